@@ -67,14 +67,57 @@ class ClassInfo:
                     raise TranslationError("%s:%d class %s defines %s: attribute access is not plain" % (mod.relpath, n.lineno, clsname, n.name))
         self.consts = {}          # name -> python value (int | str | tuple of str)
         self.const_lines = {}
-        self.used_consts = []     # int constants emitted as Lean defs, in order of first use
+        self.used_consts = []     # (owner class, name) of the int constants emitted as Lean defs, in order of first use
+        self.others = {}          # other class of the module -> (consts, const_lines)
         self._class_constants()
+        # alias properties: `@property def p(self): return self.<attr>` / `@p.setter def p(self, v): self.<attr> = v`
+        self.getters, self.setters, self.opaque = {}, {}, set()
+        for n in node.body:
+            if not isinstance(n, ast.FunctionDef) or not n.decorator_list:
+                continue
+            body = [x for x in n.body if not (isinstance(x, ast.Expr) and isinstance(x.value, ast.Constant))]
+            d = n.decorator_list[0]
+            sn = n.args.args[0].arg if n.args.args else None
+            if len(n.decorator_list) == 1 and isinstance(d, ast.Name) and d.id == "property" and len(body) == 1 \
+               and isinstance(body[0], ast.Return) and isinstance(body[0].value, ast.Attribute) \
+               and isinstance(body[0].value.value, ast.Name) and body[0].value.value.id == sn and len(n.args.args) == 1:
+                self.getters[n.name] = body[0].value.attr
+            elif len(n.decorator_list) == 1 and isinstance(d, ast.Attribute) and d.attr == "setter" and isinstance(d.value, ast.Name) \
+                    and d.value.id == n.name and len(n.args.args) == 2 and len(body) == 1 and isinstance(body[0], ast.Assign) \
+                    and len(body[0].targets) == 1 and isinstance(body[0].targets[0], ast.Attribute) \
+                    and isinstance(body[0].targets[0].value, ast.Name) and body[0].targets[0].value.id == sn \
+                    and isinstance(body[0].value, ast.Name) and body[0].value.id == n.args.args[1].arg:
+                self.setters[n.name] = body[0].targets[0].attr
+            elif isinstance(d, ast.Attribute) and d.attr == "setter":
+                self.setters[n.name] = None          # a setter that does more than store: assignments through it are refused
+            else:
+                self.opaque.add(n.name)
         self.fields = []          # [(attribute, INT | BYTES | BOOL)]
         self.init = {}            # attribute -> ast of the initial value
         self.structs = {}         # attribute -> format string
         self.not_carried = []     # [(attribute, why)]
         self.notes = []
         self._init_fields()
+
+    def other_consts(self, clsname):
+        """the constants of another class of the module (evaluated like the class's own)"""
+        if clsname not in self.others:
+            node = None
+            for n in self.mod.tree.body:
+                if isinstance(n, ast.ClassDef) and n.name == clsname:
+                    node = n
+            if node is None or self.mod.binds(clsname) and sum(1 for n in self.mod.tree.body if isinstance(n, (ast.ClassDef, ast.FunctionDef)) and n.name == clsname) != 1:
+                self.others[clsname] = ({}, {})
+                return self.others[clsname]
+            saved = (self.consts, self.const_lines, self.name, self.node, self.methods)
+            self.consts, self.const_lines, self.name, self.node = {}, {}, clsname, node
+            self.methods = {n.name: n for n in node.body if isinstance(n, ast.FunctionDef)}
+            try:
+                self._class_constants()
+                self.others[clsname] = (self.consts, self.const_lines)
+            finally:
+                self.consts, self.const_lines, self.name, self.node, self.methods = saved
+        return self.others[clsname]
 
     def err(self, node, msg):
         raise TranslationError("%s:%s class %s: %s" % (self.mod.relpath, getattr(node, "lineno", "?"), self.name, msg))
@@ -284,6 +327,7 @@ class MFn(tr.Fn):
     def __init__(self, mod, node, spec, cls, selfname):
         super().__init__(mod, node, spec)
         self.cls, self.selfname = cls, selfname
+        self.objnames = {selfname} | {p for p, t in spec.get("params", {}).items() if t == "self"}
         self.monadic = True
         self.cur_env = None
         self.nomonad = 0
@@ -321,24 +365,49 @@ class MFn(tr.Fn):
         return out + text
 
     # ---- expressions
-    def class_const(self, e):
-        """`Cls.NAME` (or `self.NAME` for a name that is a class constant and not an instance attribute) -> python value | None"""
-        if isinstance(e, ast.Attribute) and isinstance(e.value, ast.Name) and e.attr in self.cls.consts:
-            if e.value.id == self.cls.name and self.cls.name not in self.locals:
-                return self.cls.consts[e.attr]
-            if e.value.id == self.selfname and e.attr not in dict(self.cls.fields) and e.attr not in self.cls.structs:
-                return self.cls.consts[e.attr]
+    def class_const_info(self, e):
+        """`Cls.NAME`, `Other.NAME` for another class of the module, or `self.NAME` for a name that is a class constant and
+        not an instance attribute -> (python value, owner class, line) | None"""
+        if not (isinstance(e, ast.Attribute) and isinstance(e.value, ast.Name)):
+            return None
+        base = e.value.id
+        if base == self.cls.name and base not in self.locals and e.attr in self.cls.consts:
+            return self.cls.consts[e.attr], base, self.cls.const_lines[e.attr]
+        if base == self.selfname and e.attr in self.cls.consts and e.attr not in dict(self.cls.fields) \
+           and e.attr not in self.cls.structs and e.attr not in self.cls.getters:
+            return self.cls.consts[e.attr], self.cls.name, self.cls.const_lines[e.attr]
+        if base != self.selfname and base not in self.locals and base != self.cls.name:
+            consts, lines = self.cls.other_consts(base)
+            if e.attr in consts:
+                return consts[e.attr], base, lines[e.attr]
         return None
 
+    def class_const(self, e):
+        r = self.class_const_info(e)
+        return None if r is None else r[0]
+
+    def alias(self, e):
+        """`x.p` for an alias property p of the class -> the attribute node it stands for"""
+        if isinstance(e, ast.Attribute) and isinstance(e.value, ast.Name) and e.value.id in self.objnames:
+            if e.attr in self.cls.opaque:
+                self.err(e, "%s.%s is a property that does more than return an attribute: not in the subset" % (e.value.id, e.attr))
+            if e.attr in self.cls.getters:
+                self.notes.append("%s.%s is the property that returns %s.%s" % (e.value.id, e.attr, e.value.id, self.cls.getters[e.attr]))
+                return ast.copy_location(ast.Attribute(value=e.value, attr=self.cls.getters[e.attr], ctx=e.ctx), e)
+        return e
+
     def expr(self, e, env):
-        c = self.class_const(e)
-        if c is not None:
+        ci = self.class_const_info(e)
+        if ci is not None:
+            c, owner, (ln, seg) = ci
             if isinstance(c, int):
-                if e.attr not in self.cls.used_consts:
-                    self.cls.used_consts.append(e.attr)
-                return V(tr.lname(e.attr), INT, c, c)
+                lean = tr.lname(e.attr) if owner == self.cls.name else "%s_%s" % (owner, e.attr)
+                if (owner, e.attr) not in [(o, a) for o, a, _, _, _, _ in self.cls.used_consts]:
+                    self.cls.used_consts.append((owner, e.attr, lean, ln, seg, c))
+                return V(lean, INT, c, c)
             self.err(e, "class constant %s.%s (a %s) is used as a value: only int constants are" % (
-                self.cls.name, e.attr, type(c).__name__))
+                owner, e.attr, type(c).__name__))
+        e = self.alias(e)
         if isinstance(e, ast.Attribute) and isinstance(e.value, ast.Name) and e.value.id in env and env[e.value.id].t == "rec":
             key = e.value.id + "." + e.attr
             if key not in env:
@@ -359,6 +428,20 @@ class MFn(tr.Fn):
                     {INT: "an int", BOOL: "a bool", INTS: "a list of ints"}.get(v.t, "bytes")))
                 return "False" if isinstance(e.ops[0], ast.Is) else "True"
             self.err(e, "`is None` on %s" % v.t)
+        if isinstance(e, ast.Compare) and len(e.ops) == 1 and isinstance(e.ops[0], (ast.Eq, ast.NotEq, ast.Is, ast.IsNot)) \
+           and isinstance(e.left, ast.Call) and isinstance(e.left.func, ast.Name) and e.left.func.id == "type" \
+           and len(e.left.args) == 1 and not e.left.keywords and isinstance(e.comparators[0], ast.Name) \
+           and e.comparators[0].id in ("int", "bytes", "bool") and "type" not in self.locals and not self.mod.binds("type") \
+           and e.comparators[0].id not in self.locals and not self.mod.binds(e.comparators[0].id):
+            v = self.expr(e.left.args[0], env)
+            want = {"int": INT, "bytes": BYTES, "bool": BOOL}[e.comparators[0].id]
+            if v.t in (INT, BYTES, BOOL):
+                same = v.t == want
+                pos = isinstance(e.ops[0], (ast.Eq, ast.Is))
+                self.notes.append("`%s` is %s under the typing assumption (%s holds a value whose type is exactly %s)" % (
+                    ast.unparse(e), same == pos, ast.unparse(e.left.args[0]), {INT: "int", BYTES: "bytes", BOOL: "bool"}[v.t]))
+                return "True" if same == pos else "False"
+            self.err(e, "type() of %s" % v.t)
         if isinstance(e, ast.UnaryOp) and isinstance(e.op, ast.Not):
             c = self.cond(e.operand, env)
             return {"True": "False", "False": "True"}.get(c, "(¬ %s)" % c)
@@ -386,7 +469,7 @@ class MFn(tr.Fn):
     def fmt_arg(self, node, a, env):
         c = self.class_const(a)
         if isinstance(c, str):
-            self.notes.append("format %s = %r (class constant, line %d)" % (ast.unparse(a), c, self.cls.const_lines[a.attr][0]))
+            self.notes.append("format %s = %r (class constant, line %d)" % (ast.unparse(a), c, self.class_const_info(a)[2][0]))
             return self.cls.lean_fmt(c, "%s:%d" % (self.mod.relpath, node.lineno))
         return super().fmt_arg(node, a, env)
 
@@ -442,6 +525,19 @@ class MFn(tr.Fn):
             fmt = self.fmt_arg(e, args[0], env)
             op = f.attr
             args = args[1:]
+        if isinstance(f, ast.Attribute) and isinstance(f.value, ast.Name) and f.value.id == "struct" and "struct" not in env \
+           and f.attr == "calcsize" and len(args) == 1:
+            if not self.mod.imported("struct", "struct"):
+                self.err(e, "`struct` is not (only) the standard module in this module")
+            fs = self.class_const(args[0])
+            if not isinstance(fs, str) and isinstance(args[0], ast.Constant) and isinstance(args[0].value, str):
+                fs = args[0].value
+            if not isinstance(fs, str) or fs[:1] not in "<>!=":
+                self.err(e, "struct.calcsize of anything but a constant standard-size format")
+            self.cls.lean_fmt(fs, where)
+            val = _struct.calcsize(fs)
+            self.notes.append("%s is the constant %d (format %r)" % (ast.unparse(e), val, fs))
+            return V(tr.lit(val), INT, val, val)
         if fmt is None:
             return super().call(e, env)
         ftext, n = fmt
@@ -471,6 +567,12 @@ class MFn(tr.Fn):
     # ---- statements
     def target_key(self, t, env):
         if isinstance(t, ast.Attribute) and isinstance(t.value, ast.Name) and t.value.id == self.selfname:
+            if t.attr in self.cls.opaque or t.attr in self.cls.getters or t.attr in self.cls.setters:
+                if self.cls.setters.get(t.attr) is None:
+                    self.err(t, "assignment through the property %s, which has no setter / a setter that does more than "
+                                "store one attribute: not in the subset" % t.attr)
+                self.notes.append("self.%s = … goes through the property setter, which stores self.%s" % (t.attr, self.cls.setters[t.attr]))
+                t = ast.copy_location(ast.Attribute(value=t.value, attr=self.cls.setters[t.attr], ctx=t.ctx), t)
             key = self.selfname + "." + t.attr
             if key not in env:
                 self.err(t, "assignment to attribute %s, which is not carried by the object structure (%s)" % (
@@ -517,7 +619,12 @@ class MFn(tr.Fn):
         if not isinstance(s, ast.For) or s.orelse or not isinstance(s.target, ast.Name):
             return None
         names = self.class_const(s.iter)
+        if isinstance(s.iter, (ast.Tuple, ast.List)) and s.iter.elts \
+           and all(isinstance(x, ast.Constant) and isinstance(x.value, str) for x in s.iter.elts):
+            names = tuple(x.value for x in s.iter.elts)
         if not isinstance(names, tuple):
+            return None
+        if not any(isinstance(n, ast.Call) and isinstance(n.func, ast.Name) and n.func.id == "getattr" for st in s.body for n in ast.walk(st)):
             return None
         var = s.target.id
         for n in ast.walk(self.node):
@@ -532,7 +639,7 @@ class MFn(tr.Fn):
         out = []
         import copy
         for nm in names:
-            if nm not in dict(self.cls.fields):
+            if nm not in dict(self.cls.fields) and self.cls.getters.get(nm) not in dict(self.cls.fields):
                 self.err(s, "%s names %r, which is not a carried attribute (getattr could raise AttributeError)" % (
                     ast.unparse(s.iter), nm))
             for st in s.body:
@@ -719,6 +826,8 @@ def translate_class(spec):
             for n in ast.walk(node):
                 if isinstance(n, ast.Attribute):
                     used.add(n.attr)
+                    used.add(cls.getters.get(n.attr))
+                    used.add(cls.setters.get(n.attr))
     # underscore attributes are carried only when a translated method uses them
     dropped = [(f, t) for f, t in cls.fields if f.startswith("_") and f not in used]
     cls.fields = [(f, t) for f, t in cls.fields if (f, t) not in dropped]
@@ -741,10 +850,9 @@ def translate_class(spec):
              "namespace %s" % ns,
              "open Acra Acra.Py",
              "set_option linter.unusedVariables false", ""]
-    for c in cls.used_consts:
-        ln, seg = cls.const_lines[c]
-        lines.append("/-- class constant, line %d: `%s` -/\ndef %s : Int := %s\n" % (
-            ln, seg.replace("-/", "- /").replace("/-", "/ -"), tr.lname(c), tr.lit(cls.consts[c])))
+    for owner, attr, lean, ln, seg, val in cls.used_consts:
+        lines.append("/-- constant of class %s, line %d: `%s` -/\ndef %s : Int := %s\n" % (
+            owner, ln, seg.replace("-/", "- /").replace("/-", "/ -"), lean, tr.lit(val)))
     init = cls.methods["__init__"]
     doc = ("/-- The attributes `%s.__init__` (lines %d-%d) assigns at its top level, as far as they hold ints / bytes / bools.\n"
            "    TYPING ASSUMPTION: every field holds a value of its type whenever a translated method runs (an `int`, a\n"
